@@ -248,6 +248,274 @@ def iterGuardrailConfigs (f : PyFile) (xorkey : Bytes := defaultGuardXorKey) : P
   | [] => .error .indexError
   | s0 :: _ => scanLoop starts' s0.length xorkey f 0
 
+/-! ### specification of the scan, and the linear-time version the compiled driver runs
+
+`scanLoop` re-walks the file list from the start for every offset (`seek(offset)`), which is quadratic on Lean lists and
+makes payloads of 64 KiB .. 1 MiB unusable in the correspondence.  Below, the scan is proved equal to a `filterMap` of the
+pure per-offset probe `probeAt`, then to a single left-to-right pass `scanFastGo`, and the compiler is told (proved
+`@[csimp]` equation, no axioms) to run that pass.  Theorems keep talking about `iterGuardrailConfigs`. -/
+
+/-! #### the guard settings loop never raises -/
+theorem readU16_err {d : Bytes} {e : PyExc} (h : readU16 d = .error e) : e = .eofError := by
+  unfold readU16 at h
+  split at h
+  · cases h
+  · injection h with h; exact h.symm
+
+theorem readExact_err {d : Bytes} {n : Nat} {e : PyExc} (h : readExact d n = .error e) : e = .eofError := by
+  unfold readExact at h
+  split at h
+  · injection h with h; exact h.symm
+  · cases h
+
+theorem parseSetting_err {d : Bytes} {e : PyExc} (h : parseSetting d = .error e) : e = .eofError := by
+  unfold parseSetting at h
+  split at h
+  · rename_i h1; injection h with h; subst h; exact readU16_err h1
+  · split at h
+    · rename_i h1; injection h with h; subst h; exact readU16_err h1
+    · split at h
+      · rename_i h1; injection h with h; subst h; exact readU16_err h1
+      · split at h
+        · rename_i h1; injection h with h; subst h; exact readExact_err h1
+        · cases h
+
+/-- the settings loop without the exception plumbing (specification side) -/
+def settingsPure (d : Bytes) (settings : List Setting) (checksum : Nat) : List Setting × Nat :=
+  if d.take 2 = [0, 0] then (settings, checksum)
+  else
+    match h : parseSetting d with
+    | .error _ => (settings, checksum)
+    | .ok (s, rest) =>
+      settingsPure rest (settings ++ [s])
+        (if s.option = GUARD_PAYLOAD_CHECKSUM then u32be s.value else checksum)
+termination_by d.length
+decreasing_by have := parseSetting_rest h; omega
+
+theorem settingsLoop_eq (d : Bytes) (s : List Setting) (c : Nat) :
+    settingsLoop d s c = .ok (settingsPure d s c) := by
+  fun_induction settingsPure d s c with
+  | case1 d s c h => unfold settingsLoop; simp [h]
+  | case2 d s c h e he =>
+    unfold settingsLoop
+    simp only [h, ↓reduceIte]
+    split
+    · rename_i e' he'
+      have := parseSetting_err he'
+      simp [this]
+    · rename_i s' r' he'
+      rw [he] at he'; cases he'
+  | case3 d s c h st rest he ih =>
+    unfold settingsLoop
+    simp only [h, ↓reduceIte]
+    split
+    · rename_i e' he'
+      rw [he] at he'; cases he'
+    · rename_i s' r' he'
+      rw [he] at he'
+      injection he' with he'
+      injection he' with h1 h2
+      subst h1; subst h2
+      exact ih
+
+/-! #### what the scan reports, offset by offset -/
+/-- the metadata record the scan builds for a marker whose guard configuration starts at `gco` -/
+def metaAt (data xorkey : Bytes) (gco bco : Nat) : Meta :=
+  let mb := (data.drop bco).take BEACON_CONFIG_PATCH_SIZE
+  let mg := (data.drop (bco + mb.length)).take GUARD_PATCH_SIZE
+  let ug := C20.xor (C20.xor mg mb.reverse) xorkey
+  let r := settingsPure ug [] 0
+  { beaconConfigOffset := bco
+    guardConfigOffset := gco
+    maskedBeaconConfig := mb
+    maskedGuardConfig := mg
+    beaconXorKey := metaBeaconXorKey
+    guardrailXorKey := xorkey
+    unmaskedGuardConfig := ug
+    checksum := r.2
+    payloadXorKey := none
+    unmaskedBeaconConfig := none
+    settings := r.1 }
+
+theorem buildMeta_eq (f : PyFile) (k : Bytes) (gco bco : Nat) :
+    ∃ f', buildMeta f k gco bco = .ok (metaAt f.data k gco bco, f') ∧ f'.data = f.data := by
+  unfold buildMeta
+  rw [readAt_ok]
+  simp only [settingsLoop_eq]
+  refine ⟨_, rfl, ?_⟩
+  simp
+
+/-- marker relation at `offset` -/
+def markerAt (data : Bytes) (starts' : List Bytes) (size offset : Nat) : Prop :=
+  C20.xor (((data.drop offset).take (size * 2)).take size).reverse (((data.drop offset).take (size * 2)).drop size) ∈ starts'
+
+instance (data : Bytes) (starts' : List Bytes) (size offset : Nat) : Decidable (markerAt data starts' size offset) := by
+  unfold markerAt; infer_instance
+
+/-- what one iteration of the scan reports at `offset` -/
+def probeAt (data : Bytes) (starts' : List Bytes) (size : Nat) (xorkey : Bytes) (offset : Nat) : Option Meta :=
+  if markerAt data starts' size offset ∧ BEACON_CONFIG_PATCH_SIZE ≤ offset + 6 then
+    some (metaAt data xorkey (offset + 6) (offset + 6 - BEACON_CONFIG_PATCH_SIZE))
+  else none
+
+theorem scanLoop_eq (st : List Bytes) (size : Nat) (hsize : 0 < size) (k : Bytes) (n : Nat) :
+    ∀ (f : PyFile) (offset : Nat), f.data.length - offset = n →
+      scanLoop st size k f offset = .ok ((List.range' offset n).filterMap (probeAt f.data st size k)) := by
+  induction n with
+  | zero =>
+    intro f offset hn
+    unfold scanLoop
+    split
+    · rename_i e he; rw [readAt_ok] at he; cases he
+    · rename_i block f1 he
+      have hb : block = [] := by
+        rw [readAt_ok] at he
+        injection he with he
+        have := congrArg Prod.fst he
+        simp only [PyFile.read_nonneg] at this
+        rw [← this]; simp; right; omega
+      simp [hb]
+  | succ n ih =>
+    intro f offset hn
+    unfold scanLoop
+    split
+    · rename_i e he; rw [readAt_ok] at he; cases he
+    · rename_i block f1 he
+      have hd : f1.data = f.data := readAt_data he
+      have hblock : block = (f.data.drop offset).take (size * 2) := by
+        rw [readAt_ok] at he
+        injection he with he
+        have := congrArg Prod.fst he
+        simp only [PyFile.read_nonneg] at this
+        rw [← this]
+      have hne : block ≠ [] := by
+        rw [hblock]
+        intro h0
+        have := congrArg List.length h0
+        simp at this
+        omega
+      simp only [hne, ↓reduceDIte]
+      have hr : List.range' offset (n + 1) = offset :: List.range' (offset + 1) n := by
+        simp [List.range']
+      rw [hr, List.filterMap_cons]
+      have hm : (C20.xor (block.take size).reverse (block.drop size) ∈ st) = markerAt f.data st size offset := by
+        rw [hblock]; rfl
+      have ih1 : scanLoop st size k f1 (offset + 1) = .ok ((List.range' (offset + 1) n).filterMap (probeAt f.data st size k)) := by
+        have := ih f1 (offset + 1) (by rw [hd]; omega)
+        rw [hd] at this; exact this
+      by_cases hmk : markerAt f.data st size offset
+      · have hmk' : C20.xor (List.take size block).reverse (List.drop size block) ∈ st := by rw [hm]; exact hmk
+        simp only [hmk', ↓reduceIte]
+        by_cases hlt : (↑(offset + 6) : Int) - ↑BEACON_CONFIG_PATCH_SIZE < 0
+        · simp only [hlt, ↓reduceIte]
+          have hp : probeAt f.data st size k offset = none := by
+            unfold probeAt
+            rw [if_neg]
+            intro ⟨_, h2⟩
+            omega
+          rw [hp, ih1]
+        · simp only [hlt, ↓reduceIte]
+          have hge : BEACON_CONFIG_PATCH_SIZE ≤ offset + 6 := by omega
+          have hp : probeAt f.data st size k offset = some (metaAt f.data k (offset + 6) (offset + 6 - BEACON_CONFIG_PATCH_SIZE)) := by
+            unfold probeAt
+            rw [if_pos ⟨hmk, hge⟩]
+          have hto : ((↑(offset + 6) : Int) - ↑BEACON_CONFIG_PATCH_SIZE).toNat = offset + 6 - BEACON_CONFIG_PATCH_SIZE := by omega
+          obtain ⟨f2, hb, hd2⟩ := buildMeta_eq f1 k (offset + 6) (offset + 6 - BEACON_CONFIG_PATCH_SIZE)
+          rw [hto]
+          split
+          · rename_i e he2; rw [hb] at he2; cases he2
+          · rename_i m f2' he2
+            rw [hb] at he2
+            injection he2 with he2
+            injection he2 with h1 h2
+            subst h2
+            have ih2 : scanLoop st size k f2 (offset + 1) = .ok ((List.range' (offset + 1) n).filterMap (probeAt f.data st size k)) := by
+              have := ih f2 (offset + 1) (by rw [hd2, hd]; omega)
+              rw [hd2, hd] at this; exact this
+            rw [ih2, hp, ← h1, hd]
+      · have hmk' : ¬ C20.xor (List.take size block).reverse (List.drop size block) ∈ st := by rw [hm]; exact hmk
+        simp only [hmk', ↓reduceIte]
+        have hp : probeAt f.data st size k offset = none := by
+          unfold probeAt
+          rw [if_neg]
+          intro ⟨h1, _⟩
+          exact hmk h1
+        rw [hp, ih1]
+
+theorem xor_length_model (d k : Bytes) : (C20.xor d k).length = d.length := by
+  unfold C20.xor; split <;> simp [C20.xorCore]
+
+theorem starts_length_model : ∀ s ∈ GUARD_CONFIG_STARTS, s.length = 6 := by decide
+
+/-- masked starts the scan compares against -/
+def maskedStarts (xorkey : Bytes) : List Bytes := GUARD_CONFIG_STARTS.map (C20.xor · xorkey)
+
+/-- The scan never raises (BytesIO or OS file, any mask key) and reports, in increasing offset order, exactly the
+offsets where the marker relation holds and a 6144-byte area fits in front. -/
+theorem iterGuardrailConfigs_eq_probe (f : PyFile) (xorkey : Bytes) :
+    iterGuardrailConfigs f xorkey =
+      .ok ((List.range f.data.length).filterMap (probeAt f.data (maskedStarts xorkey) 6 xorkey)) := by
+  unfold iterGuardrailConfigs
+  have hs : GUARD_CONFIG_STARTS.map (C20.xor · xorkey) = maskedStarts xorkey := rfl
+  simp only [hs]
+  cases hm : maskedStarts xorkey with
+  | nil => simp [maskedStarts, GUARD_CONFIG_STARTS] at hm
+  | cons s0 rest =>
+    have h6 : s0.length = 6 := by
+      have : s0 ∈ maskedStarts xorkey := by rw [hm]; simp
+      simp only [maskedStarts, List.mem_map] at this
+      obtain ⟨s, hs, rfl⟩ := this
+      rw [xor_length_model]; exact starts_length_model s hs
+    simp only []
+    rw [h6, ← hm]
+    have := scanLoop_eq (maskedStarts xorkey) 6 (by omega) xorkey f.data.length f 0 (by omega)
+    rw [this, List.range_eq_range']
+
+/-- one pass over the file: `suffix = data.drop offset` -/
+def scanFastGo (data : Bytes) (starts' : List Bytes) (size : Nat) (xorkey : Bytes) :
+    Bytes → Nat → List Meta → List Meta
+  | [], _, acc => acc.reverse
+  | b :: rest, offset, acc =>
+    let block := (b :: rest).take (size * 2)
+    let acc' :=
+      if C20.xor (block.take size).reverse (block.drop size) ∈ starts' ∧ BEACON_CONFIG_PATCH_SIZE ≤ offset + 6 then
+        metaAt data xorkey (offset + 6) (offset + 6 - BEACON_CONFIG_PATCH_SIZE) :: acc
+      else acc
+    scanFastGo data starts' size xorkey rest (offset + 1) acc'
+
+theorem scanFastGo_eq (data : Bytes) (st : List Bytes) (size : Nat) (k : Bytes) (n : Nat) :
+    ∀ (offset : Nat) (acc : List Meta), data.length - offset = n →
+      scanFastGo data st size k (data.drop offset) offset acc
+        = acc.reverse ++ (List.range' offset n).filterMap (probeAt data st size k) := by
+  induction n with
+  | zero =>
+    intro offset acc hn
+    have : data.drop offset = [] := List.drop_eq_nil_of_le (by omega)
+    rw [this]; simp [scanFastGo]
+  | succ n ih =>
+    intro offset acc hn
+    have hlt : offset < data.length := by omega
+    have hcons : data.drop offset = data[offset] :: data.drop (offset + 1) := by
+      rw [List.drop_eq_getElem_cons hlt]
+    rw [hcons]
+    simp only [scanFastGo]
+    rw [← hcons, ih (offset + 1) _ (by omega)]
+    have hr : List.range' offset (n + 1) = offset :: List.range' (offset + 1) n := by simp [List.range']
+    rw [hr, List.filterMap_cons]
+    unfold probeAt markerAt
+    split <;> simp
+
+def iterGuardrailConfigsFast (f : PyFile) (xorkey : Bytes) : Py (List Meta) :=
+  .ok (scanFastGo f.data (maskedStarts xorkey) 6 xorkey f.data 0 [])
+
+@[csimp] theorem iterGuardrailConfigs_eq_fast : @iterGuardrailConfigs = @iterGuardrailConfigsFast := by
+  funext f xorkey
+  rw [iterGuardrailConfigs_eq_probe]
+  unfold iterGuardrailConfigsFast
+  have := scanFastGo_eq f.data (maskedStarts xorkey) 6 xorkey f.data.length 0 [] (by omega)
+  simp only [List.drop_zero, List.reverse_nil, List.nil_append] at this
+  rw [this, List.range_eq_range']
+
 /-! ### key candidates -/
 
 /-- `io.DEFAULT_BUFFER_SIZE` -/
